@@ -378,13 +378,30 @@ def h_struct(ctx, which, nfields):
                     ctx.prove(val == want, "struct-field-wrong-value",
                               (fname, val, want))
                 else:
-                    new = ctx.pick(("", "b", "another 16 chars"))
+                    new = ctx.pick(("", "b", "another 16 chars",
+                                    "seventeen chars!!",
+                                    u"Gr\u00f6\u00dfen\u00fcberpr\u00fcfung",
+                                    u"\u00e9" * 8 + "x"))
                     mc.write_vcpu_struct_field(fname, new, X, Y, p)
                     ctx.observe("written", fname)
                     got = mem.read(address, 16)
-                    want = new.encode("utf-8").ljust(16, b"\0")
+                    # "16s": the encoded text cut to / padded to 16 bytes
+                    want = new.encode("utf-8")[:16].ljust(16, b"\0")
                     ctx.prove(bytes(got) == want, "struct-field-wrong-value",
                               (fname, bytes(got), want))
+                    # ... and not a byte outside the field
+                    for q in machine.log[mark:]:
+                        if int(q.cmd) == 3:
+                            ctx.prove(q.arg1 == address and
+                                      int(q.arg2) == 16,
+                                      "struct-field-wrong-length",
+                                      (fname, q.arg1, q.arg2))
+                    for off in (-1, 16, 17, 19):
+                        from models.machine import _mix
+                        b = mem.load(address + off)
+                        ctx.prove(b == _mix(address + off),
+                                  "memory-write-wrong-bytes",
+                                  (fname, off, b))
             except Exception as e:
                 ctx.observe(type(e).__name__)
                 ctx.prove(False, "memory-unexpected-exception",
